@@ -25,6 +25,7 @@ def main():
     ap.add_argument("--only", default=None, help="substring filter on task labels (debugging)")
     a = ap.parse_args()
     tier = "thorough" if a.tier == "thorough" else "quick"
+    os.environ["VERIF_TIER_EFFECTIVE"] = tier          # read by engine/runner.py (exploration time budgets scale with the tier)
     seed = int(os.environ.get("VERIF_SEED", "0") or 0)
     prop = a.prop.upper()
     if a.replay:
